@@ -113,6 +113,18 @@ func ite(c, a, b Term) Term {
 	if a == b {
 		return a
 	}
+	// Boolean ite with a constant branch: plain connectives (keeps quantifiers that come
+	// from `p && forall(...)` at a position where solvers can skolemise/instantiate them)
+	switch {
+	case b == "false":
+		return and(c, a)
+	case a == "true":
+		return or(c, b)
+	case b == "true":
+		return implies(c, a)
+	case a == "false":
+		return and(not(c), b)
+	}
 	return "(ite " + c + " " + a + " " + b + ")"
 }
 
